@@ -9,7 +9,7 @@
    every statement holds for all of them. *)
 From Coq Require Import ZArith NArith List Bool String.
 From Verif Require Import lib.Dec model.NumText model.ExValues model.ExEval model.ExArgIndex gen.ArgIndex
-  proofs.ExEvalProofs proofs.ExArgIndexProofs.
+  proofs.ExEvalProofs proofs.ExEvalBudget proofs.ExArgIndexProofs.
 Import ListNotations.
 
 (* ---- (a) the modelled builtins never panic: ALL argument lists of ALL lengths, all panic classes ---- *)
@@ -287,6 +287,31 @@ Theorem c04_eval_panics_only_on_exponent_overflow_partial : forall wclass regex 
                 forall c, eval wclass regex ext frac_pow lookup_function ctx e = Panic c -> c = PExponent.
 Proof. exact eval_statement. Qed.
 Print Assumptions c04_eval_panics_only_on_exponent_overflow_partial.
+
+(* WHERE the remaining class can come from: [eval_b B] is the same evaluator with an exponent budget — every value
+   passed between two nodes (literal, context value, lookup key, parameter, operand, result) must denote only numbers
+   with decimal exponent within +-B, as a number, as numeric text, through an object default or inside a container;
+   None = budget exceeded.  With B = 10^9: a panic OF ANY CLASS (or running out of fuel) of the evaluator implies
+   that the budget was exceeded, i.e. that some intermediate value carries an exponent beyond +-10^9 (a numeric
+   text of a gigabyte: * and ^ limit exponents to +-100000, / and mean give -16).  Without such a size bound the
+   statement would be false of the model AND of goflow: number("0." & repeat("0", 2147483000) & "1") / 1E1000 makes
+   Decimal.QuoRem panic.  Hypotheses: the 79 unmodelled functions and the series part of ^ do not panic
+   (satisfiable: budget_hypotheses_satisfiable); they are covered by the sweep only. *)
+Theorem c04_eval_panic_exceeds_exponent_budget : forall wclass regex ext frac_pow lookup_function,
+  ext_total ext -> frac_pow_total frac_pow ->
+  forall ctx e,
+    (exists c, eval wclass regex ext frac_pow lookup_function ctx e = Panic c)
+    \/ eval wclass regex ext frac_pow lookup_function ctx e = NoFuel ->
+    eval_b wclass regex ext frac_pow lookup_function exponent_budget ctx e = None.
+Proof. exact eval_panic_exceeds_budget. Qed.
+Print Assumptions c04_eval_panic_exceeds_exponent_budget.
+
+(* within budget the budgeted evaluator IS the evaluator (so the statement above is about eval, not a weaker copy) *)
+Theorem c04_budgeted_eval_agrees : forall wclass regex ext frac_pow lookup_function B ctx e r,
+  eval_b wclass regex ext frac_pow lookup_function B ctx e = Some r ->
+  eval wclass regex ext frac_pow lookup_function ctx e = r.
+Proof. exact eval_b_agrees. Qed.
+Print Assumptions c04_budgeted_eval_agrees.
 
 (* none of the above is true because the model ran out of fuel: the fuel-bounded loops of the model (object
    pairs, has_group, nesting of foreach) always finish *)
